@@ -116,15 +116,15 @@ type w2Recv struct {
 }
 
 type w2ConsState struct {
-	spawned    int // step at which SpawnOutput returned (-1: not yet)
-	despawn0   int // step at which DespawnOutput was invoked
-	despawn1   int // step at which it returned (-1: not)
-	despawnT0  time.Duration
-	despawnT1  time.Duration
-	got        []w2Recv
-	reading    bool // still reading at the end (not stopped)
-	id         int64
-	err        string
+	spawned   int // step at which SpawnOutput returned (-1: not yet)
+	despawn0  int // step at which DespawnOutput was invoked
+	despawn1  int // step at which it returned (-1: not)
+	despawnT0 time.Duration
+	despawnT1 time.Duration
+	got       []w2Recv
+	reading   bool // still reading at the end (not stopped)
+	id        int64
+	err       string
 }
 
 type w2World struct {
@@ -341,6 +341,10 @@ func runW2(t *testing.T, job *Job, seed uint64, rp *Replay) RunOut {
 		}
 		simrt.WaitIdle()
 		vio = w.check(ops)
+		if vio != nil {
+			bb, _ := json.Marshal(ops)
+			notePending(vio, &Replay{World: "W2", Prop: "C15", Seed: seed, Ops: bb, Override: true})
+		}
 		simrt.Stop()
 	})
 	ro.Steps, ro.SimTime, ro.Hash, ro.Choices = res.Steps, res.SimTime, res.SchedHash, res.Choices
